@@ -137,9 +137,9 @@ def runVecG {σ δ ο : Type} (m : Machine σ (Item δ) ο) (decL : Json → Opt
     match mkVectorizeDim isList nseq dim with
     | .error e => Json.mkObj [("init_err", errName e)]
     | .ok n =>
-      let vm := vectorizeCM m n c
-      -- a list of `n` sequences: `init` has exactly `n` copies (`max n 1` differs only for the empty list)
-      let vm := if isList && n == 0 then { vm with init := ⟨[], []⟩ } else vm
+      -- the list form is `vectorizeLM` (exactly `n` components, also for the empty list)
+      let vm := if isList then (vectorizeLM m (List.replicate n m.init)).mapOut (fun it => ⟨Vec.build c it.data, it.ctx⟩)
+                else vectorizeCM m n c
       runM vm (item? decL) (itemJ (builtJ enc)) ops
   | _, _, _, _ => err "bad vec args"
 
@@ -149,6 +149,25 @@ def runVec {σ ο : Type} (m : Machine σ (Item Int) ο) (enc : ο → Json) (el
     | some k => mapDataM (· * k) m
     | none => m
   runVecG m intList? enc el ops
+
+/-- `Vectorize([Sum(), Count(), …])`: a list of different components ("sum" / "count") -/
+def runVecHet (el : Json) (ops : List Json) : Json :=
+  match (arr? (getD el "comps")).bind (fun a => a.toList.mapM (fun c => str? (getD c "k"))), construct? (getD el "construct") with
+  | some kinds, some c =>
+    let cfg : CountCfg := ⟨"count", 0⟩
+    let m := orM (sumM 0) (countM Int cfg)
+    let inits := kinds.map (fun k => if k == "sum" then Sum.inl (sumM 0).init else Sum.inr (countM Int cfg).init)
+    let enc : (Item Int ⊕ Item Int) → Json := fun o => match o with | .inl x => itemJ ofInt x | .inr x => itemJ ofInt x
+    runM ((vectorizeLM m inits).mapOut (fun it => ⟨Vec.build c it.data, it.ctx⟩)) (item? intList?) (itemJ (builtJ enc)) ops
+  | _, _ => err "bad vechet args"
+
+/-- `Vectorize(Vectorize(Sum(), idim), dim)`: a component whose `fill` can raise (a short inner vector) -/
+def runVecNested (el : Json) (ops : List Json) : Json :=
+  match nat? (getD (getD el "inner") "dim") with
+  | some idim =>
+    let enc : Item (List (Option (Item Int))) → Json := itemJ (ofList (ofOpt (itemJ ofInt)))
+    runVecG (vectorizeM (sumM 0) idim) (fun j => (arr? j).bind (fun a => a.toList.mapM intList?)) enc el ops
+  | none => err "bad nested vec args"
 
 /-- `Mean(sum_seq)` around an arbitrary sum sequence -/
 def runMeanOver (el : Json) (ops : List Json) : Json :=
@@ -166,6 +185,7 @@ def runMeanOver (el : Json) (ops : List Json) : Json :=
       | some n, some c => runM (meanOverM (countM Int ⟨n, c⟩) poe) (item? int?) (itemJ ratJ) ops
       | _, _ => err "bad meanover count"
     | some "storeitems" => runM (meanOverM storeItemsM poe) (item? int?) (itemJ ratJ) ops
+    | some "storetag" => runM (meanOverM storeTagM poe) (item? int?) (itemJ ratJ) ops
     | _ => err "unknown sum sequence"
 
 /-- Count driven by `run(flow)` as well as fill / compute / reset: {"o":"run","vs":[VALUE,..]} -> {"run":[OUT,..]} -/
@@ -180,6 +200,8 @@ def runCountRun (cfg : CountCfg) (ops : List Json) : Json :=
         match (arr? (getD j "vs")).bind (fun a => a.toList.mapM (item? int?)) with
         | some vs => let r := Count.run cfg s vs; some (r.1, out ++ [Json.mkObj [("run", ofList (itemJ ofInt) r.2)]])
         | none => none
+      | some "fi" =>
+        (item? int? (getD j "v")).map (fun v => let r := Count.fillInto cfg s v; (r.1, out ++ [Json.mkObj [("fi", itemJ ofInt r.2)]]))
       | some "f" => (item? int? (getD j "v")).map (fun v => let r := m.step s (.fill v); (r.1, out ++ [obsJ (itemJ ofInt) r.2]))
       | some "c" => let r := m.step s .compute; some (r.1, out ++ [obsJ (itemJ ofInt) r.2])
       | some "r" => let r := m.step s .reset; some (r.1, out ++ [obsJ (itemJ ofInt) r.2])
@@ -234,6 +256,14 @@ def handleSpec (j : Json) : Json :=
       Json.mkObj [("dySum", ratJ (dySum vs)), ("bareSum", ratJ (dySum (bareDy vs))),
         ("dec", ofList (fun d => ratJ (Dec.ofDy d).toRat) ds), ("dy", ofList (fun d => ratJ d.toRat) ds)]
     | none => err "bad dsum spec"
+  | some "ctxadd" =>
+    -- `decimal.Context(prec, traps=[Inexact]).add(a, b)`: the value, or Inexact
+    match pair? (getD j "a"), pair? (getD j "b"), nat? (getD j "prec") with
+    | some a, some b, some p =>
+      match ctxAdd p ⟨a.1, a.2⟩ ⟨b.1, b.2⟩ with
+      | some r => Json.mkObj [("r", ratJ r.toRat)]
+      | none => Json.mkObj [("inexact", Json.bool true)]
+    | _, _, _ => err "bad ctxadd spec"
   | some "histel" =>
     let optN (x : Json) : Option (Option (Lena.NArr Int)) := if x.isNull then some none else (narr? x).map some
     match edges? (getD j "edges"), optN (getD j "bins"), int? (getD j "iv"),
@@ -267,7 +297,8 @@ def handle (j : Json) : Json :=
   | some "dsum" =>
     match pair? (getD el "total0") with
     | some (c, e) =>
-      runM (dsumM ⟨c, e⟩) (item? (fun j => (pair? j).map (fun p => (⟨p.1, p.2⟩ : Dy)))) (itemJ decJ) ops
+      -- "total0" is the number given to `DSum(total)` as m·2^e: `Decimal(total)` is `Dec.ofDy`
+      runM (dsumM (Dec.ofDy ⟨c, e⟩)) (item? (fun j => (pair? j).map (fun p => (⟨p.1, p.2⟩ : Dy)))) (itemJ decJ) ops
         (fun s => [("prec", ofNat s.prec)])
     | _ => err "bad dsum args"
   | some "mean" =>
@@ -319,7 +350,9 @@ def handle (j : Json) : Json :=
       | some b => runVecG (meanDM b) dyList? (itemJ ratJ) el ops
       | _ => err "bad inner meand args"
     | some "dsum" => runVecG (dsumM ⟨0, 0⟩) dyList? (itemJ decJ) el ops
+    | some "vecsum" => runVecNested el ops
     | _ => err "unknown inner element"
+  | some "vechet" => runVecHet el ops
   | some "hist" =>
     let optList (j : Json) : Option (Option (List Int)) := if j.isNull then some none else (intList? j).map some
     match intList? (getD el "edges"), optList (getD el "bins"), optList (getD el "make_bins"), int? (getD el "iv") with
@@ -345,7 +378,17 @@ def handle (j : Json) : Json :=
     | _, _ => err "bad countrun args"
   | some "graph" =>
     match optInt (getD el "scale0"), bool? (getD el "sort"), bool? (getD el "reset_scale") with
-    | some sc, some so, some rs => runM (graphM ⟨sc, so, rs⟩) (item? pair?) graphOutJ ops
+    | some sc, some so, some rs =>
+      let pts0 := if (getD el "points0").isNull then some [] else (arr? (getD el "points0")).bind (fun a => a.toList.mapM pair?)
+      match pts0, ctx? (getD el "context0") with
+      | some pts, some c0 =>
+        if pts.isEmpty && c0.isNone then runM (graphM ⟨sc, so, rs⟩) (item? pair?) graphOutJ ops
+        else
+          -- `Graph(points, context, scale, sort)`
+          match Graph.new ⟨sc, so, rs⟩ pts (c0.getD []) with
+          | .error e => Json.mkObj [("init_err", errName e)]
+          | .ok s0 => runM (graphFromM ⟨sc, so, rs⟩ s0) (item? pair?) graphOutJ ops
+      | _, _ => err "bad graph init args"
     | _, _, _ => err "bad graph args"
   | _ => err "unknown element"
 
